@@ -253,4 +253,9 @@ class World:
             self._restore()
 
     def run(self, coro, **kw):
-        return self.loop.run(coro, **kw)
+        # the stubs stay installed for the whole run: daemons/timers touch `progression` outside of process()
+        self._install()
+        try:
+            return self.loop.run(coro, **kw)
+        finally:
+            self._restore()
